@@ -26,6 +26,20 @@ func checks() map[string]CheckDef {
 		Stubs:   []string{"math/big.Int = SMT Int; big.NewInt(int64) = signed value of the 64-bit vector", "work is checked relative to CompactToBig's result (HarnessWork), CompactToBig against the specification (HarnessCompact)"},
 	})
 	add(CheckDef{
+		ID: "C20", Level: "model_checking",
+		Runs: []HRun{
+			{Pkg: "internal/zzverif/c20", Func: "HarnessValidate", Labels: []string{"C20/unsupported-engine-refused", "C20/empty-sqlite-path-refused", "C20/incomplete-postgres-settings-refused", "C20/missing-prepared-database-file-refused"}},
+			{Pkg: "internal/zzverif/c20", Func: "HarnessNoDbSection", Labels: []string{"C20/missing-database-section-refused"}},
+			{Pkg: "internal/zzverif/c20", Func: "HarnessPrecedence", Quick: [][]int64{{0}, {1}, {2}, {3}}, Witness: 100,
+				Labels: []string{"C20/leaf-keys-enumerated", "C20/set-defaults-succeeds", "C20/load-succeeds", "C20/environment-over-file-over-default", "C20/keys-not-overridden-keep-their-defaults"}},
+			{Pkg: "internal/zzverif/c20", Func: "HarnessTwoKeys", Thorough: [][]int64{{1, 1}, {1, 2}, {3, 1}}, Witness: 200,
+				Labels: []string{"C20/set-defaults-succeeds", "C20/load-succeeds", "C20/environment-over-file-over-default", "C20/keys-not-overridden-keep-their-defaults"}},
+		},
+		Bounds: []string{"precedence: every leaf key of config.AppConfig (enumerated from the type of the working tree by its mapstructure tags: 36 keys today; string, int, bool, uint16 and duration leaves) x every subset of {environment variable, configuration file} providing an arbitrary value of the key's type (strings arbitrary non-empty space-free atoms, ints all int32, uint16 all, durations whole seconds below 2^20, the logging level one of 5 valid names); the real SetDefaults, Load, loadFromFile, envConfig, unmarshallToAppConfig and GetDefaultAppConfig run symbolically against a contract model of viper and mapstructure; every path (every key x source) is replayed natively against the real viper, the real process environment and a real YAML file on every run", "validation: AppConfig.Validate / DbConfig.Validate on an otherwise default configuration whose database section is arbitrary - engine an arbitrary string or one of the two supported names, SQLite path, schema path and all six Postgres fields arbitrary (incl. empty / zero), prepared-database flag arbitrary, prepared file path empty / naming a missing file / naming an existing file; no bound on values", "refusal is required when: the engine is neither sqlite nor postgres; sqlite with an empty path; postgres with an empty host, port 0, empty user or empty database name; prepared database enabled and the file missing (or no path)"},
+		Outside: []string{"viper and mapstructure themselves (modelled by their documented contract: Set > environment (AutomaticEnv, prefix, key replacer, empty variable = unset) > file > default; Unmarshal fills only keys viper knows; struct -> nested map by tags) - the model is compared with the real libraries on every path of every run by the native replays", "the command-line binding of the config-file option (cli.LoadFlags, pflag): the harness sets the config_file key the way the bound flag does", "the default config.yaml in the working directory; YAML syntax; more than two keys overridden at once (two keys: thorough tier); values of a type other than the key's", "whether the defaults equal what README / config.example.yaml document (the default is what GetDefaultAppConfig returns)", "whether valid configurations are accepted by Validate (the statement only requires refusals)", "file permissions / unreadable files (os.Stat errors other than not-exist)"},
+		Stubs:   []string{"github.com/spf13/viper (process-global instance) and mapstructure.Decode: contract model in engine/symex/vipermodel.go", "process environment: a name -> value map", "logging.CreateLogger / GetDefaultLogger return a logger (the harness supplies only valid level names)", "os.Stat / os.IsNotExist over the model file system (native replay: real files)"},
+	})
+	add(CheckDef{
 		ID: "C01", Level: "model_checking",
 		Runs: []HRun{
 			{Pkg: "internal/zzverif/c01", Func: "HarnessAddStep", Quick: [][]int64{{1, 0}, {2, 1}, {3, 0}, {4, 0}}, Thorough: [][]int64{{1, 1}, {2, 2}, {3, 1}, {4, 0}, {5, 0}},
